@@ -16,20 +16,34 @@ import (
 type pairObs struct {
 	F    impl.Full
 	List []model.Pair
+	Errs string // recorded validation errors (type + failure flag), for parsers that record them
 }
 
 func observePair(u *url.Url) (o pairObs, pan string) {
 	pan = safely(func() {
 		o.F = impl.ObserveFull(u)
 		o.List = readListNoUpdate(u.SearchParams())
+		for _, e := range u.ValidationErrors() {
+			o.Errs += e.Error() + ";"
+		}
 	})
 	return
 }
 
-func (a pairObs) equal(b pairObs) bool { return a.F == b.F && pairsEqual(a.List, b.List) }
+func (a pairObs) equal(b pairObs) bool { return a.F == b.F && pairsEqual(a.List, b.List) && a.Errs == b.Errs }
+
+// c13Parse parses with the default parser, or with one that records validation errors when the pairing is
+// prefixed with "rep|" (the recorded errors are a public observable of both sides too).
+func c13Parse(pairing, s string) (*url.Url, error) {
+	if strings.HasPrefix(pairing, "rep|") {
+		return c15Reporting.Parse(s)
+	}
+	return url.Parse(s)
+}
 
 func buildPair(start, pairing string, timing int) (a, b *url.Url, err error) {
-	a, err = url.Parse(start)
+	a, err = c13Parse(pairing, start)
+	pairing = strings.TrimPrefix(pairing, "rep|")
 	if err != nil {
 		return
 	}
@@ -49,6 +63,13 @@ func buildPair(start, pairing string, timing int) (a, b *url.Url, err error) {
 		b.SearchParams()
 	}
 	return
+}
+
+// probes applied to the other side after the history (each records a validation error under a reporting parser
+// and touches a different component)
+var c13Probes = [][]Op{
+	{{Kind: "hash", A: "a b"}, {Kind: "pathname", A: "x\\y z"}},
+	{{Kind: "sp.append", A: "k", B: "v"}, {Kind: "search", A: "q r"}, {Kind: "host", A: "h2:1"}},
 }
 
 func applyOpsTo(u *url.Url, ops []Op) {
@@ -91,7 +112,7 @@ func c13Eval(start, pairing string, timing, side int, ops []Op) (f *fw.Finding, 
 		refSelfHref := refSides[side].Href(false)
 		if len(ops) == 0 {
 			// the pairing call itself: the base must look exactly like a fresh parse of the same string
-			fresh, _ := url.Parse(start)
+			fresh, _ := c13Parse(pairing, start)
 			if timing == 1 || timing == 2 {
 				fresh.SearchParams()
 			}
@@ -115,7 +136,28 @@ func c13Eval(start, pairing string, timing, side int, ops []Op) (f *fw.Finding, 
 			f = fw.F("c13:frame", pairing, "%s: the untouched side changed: before %+v after %+v", how, refOther, gotOther)
 			return
 		}
+		// full independence: mutating the *other* side afterwards must not show through on the operated side
+		// (shared backing arrays only become visible when both sides have been written)
+		beforeProbe, _ := observePair(sides[side])
+		for pi, probe := range c13Probes {
+			pa, pb, _ := buildPair(start, pairing, timing)
+			ps := [2]*url.Url{pa, pb}
+			applyOpsTo(ps[side], ops)
+			applyOpsTo(ps[1-side], probe)
+			afterProbe, pan := observePair(ps[side])
+			if pan != "" {
+				f = fw.F("panic", pairing, "%s: observing panicked after probe %d: %s", how, pi, pan)
+				return
+			}
+			if !afterProbe.equal(beforeProbe) {
+				f = fw.F("c13:frame-after-both-written", pairing, "%s: after these operations, applying %s to the OTHER side changed this side: before %+v after %+v", how, histString("", probe), beforeProbe, afterProbe)
+				return
+			}
+		}
 		// effect: the operated side behaves like an independent fresh parse of its serialization
+		if strings.HasPrefix(pairing, "rep|") {
+			return // a reparse records different validation errors than the history did: no twin for the reporting variant
+		}
 		twin, err := url.Parse(refSelfHref)
 		if err != nil {
 			return
@@ -153,7 +195,7 @@ func init() {
 		ID:    "C13",
 		Level: "model_checking",
 		Rule: "pairs (base, base.Parse(ref)) for 11 reference shapes hitting every pointer-copying line and (u, u.Clone()), from 19 start URLs, with the SearchParams handle obtained never / before / after the pairing; every history of depth <= d over ~45 operations (setters, list mutators) applied to either side on the real objects. " +
-			"Frame oracle: all public observables and the parameter list of the untouched side equal those of an identical construction without the operations; effect oracle: the operated side equals the same history on an independent fresh parse of its serialization; the pairing call itself leaves the base looking like a fresh parse. " +
+			"Pairs are also built with a parser that records validation errors (the recorded errors are an observable of both sides). Frame oracle: all public observables and the parameter list of the untouched side equal those of an identical construction without the operations; effect oracle: the operated side equals the same history on an independent fresh parse of its serialization; the pairing call itself leaves the base looking like a fresh parse; after the history, mutating the OTHER side with two probe sequences must not show through on the operated side (full independence once both sides have been written). " +
 			"non-trivial = histories that change the operated side's serialization",
 		Assume:  []string{"observables only, as the statement says (bit-identity of private state is C14's business)"},
 		Trusted: []string{},
@@ -179,6 +221,11 @@ func init() {
 			for _, r := range ResolveRefs {
 				pairings = append(pairings, "resolve:"+r)
 			}
+			for _, r := range []string{"clone", "resolve:x", "resolve:#f", "resolve:?q", "resolve:"} {
+				pairings = append(pairings, "rep|"+r)
+			}
+			// starts that record 1..7 validation errors (append into spare capacity only happens for some lengths)
+			starts = append(starts, "http://h\\a", "http://h\\a\\b\\c", "http://u@h\\a\\b\\c\\d?a b", "ht\ttp:\\\\h\\a\\b\\c\\d\\e")
 			depth := 2
 			if c.Thorough() {
 				depth = 3
